@@ -49,6 +49,7 @@ type reqJ struct {
 	Chunk      string `json:"chunk,omitempty"`
 	PayloadHex string `json:"payloadHex,omitempty"`
 	Stream     string `json:"stream,omitempty"`  // hex: raw bytes, framed by the protocol tables
+	Announce   uint64 `json:"announce,omitempty"` // payload ops: the length field says this (> bytes sent): the frame is truncated by construction
 	Cut        int    `json:"cut,omitempty"`     // send only the first Cut bytes of the frame (>0)
 	Stall      bool   `json:"stall,omitempty"`   // with Cut: stay silent afterwards instead of hanging up (the read timeout must end the connection)
 	DelayMs    int    `json:"delayMs,omitempty"` // wait before sending this request
@@ -702,6 +703,9 @@ func (env *sessionEnv) buildFrame(r *reqJ) ([]byte, map[string]interface{}, erro
 		}
 	}
 	req["hugeArgs"] = huge
+	if r.Announce > uint64(len(follow)) && od.Follow == "payload" {
+		args["len"] = r.Announce
+	}
 	b, err := env.pt.encode(r.Op, args, follow)
 	return b, req, err
 }
@@ -750,6 +754,12 @@ func (env *sessionEnv) doReq(c *memConn, cj *connJ, r *reqJ) bool {
 	}
 	env.stall = r.Stall
 	defer func() { env.stall = false }()
+	if r.Announce > 0 && r.Cut == 0 {
+		if p, _ := req["plen"].(int); uint64(p) < r.Announce {
+			r.Cut = len(frameBytes)
+			frameBytes = append(frameBytes, 0) // never sent
+		}
+	}
 	if r.Cut > 0 && r.Cut < len(frameBytes) {
 		return env.exchange(c, cj, "TRUNCATED", map[string]interface{}{"op": "TRUNCATED", "path": []string{}, "limit": pos(0), "off": pos(0),
 			"start": 0, "count": 0, "plen": 0, "chunk": "", "hugeArgs": false, "of": r.Op, "cut": r.Cut, "bad": []string{}}, frameBytes[:r.Cut], nil)
